@@ -54,6 +54,7 @@ PoolSets ==
       [] Family = "C02desc2" -> [i \in 1 .. 3 |-> PoolC02desc2({<<"child", "descendant", "following-sibling">>[i]})]
       [] Family = "C02cont" -> [i \in 1 .. 12 |-> PoolC02cont({SetToSeq(AllAxes)[i]}, AllAxes)]
       [] Family = "C02count" -> [i \in 1 .. 3 |-> PoolC02count({<<"child", "descendant", "ancestor-or-self">>[i]})]
+      [] Family = "C02countpos" -> [i \in 1 .. 3 |-> PoolC02countpos({<<"child", "descendant", "following-sibling">>[i]})]
       [] Family = "C02merge" -> [i \in 1 .. 3 |-> PoolC02merge({<<"child", "descendant", "self">>[i]})]
       [] Family = "C02paren2" -> <<PoolC02paren2({Path(TRUE, <<DosNode, Step("child", NTAny, <<>>)>>), Rel1("child", NTAny), Rel1("descendant", NTName("a"))},
                                                 {Rel1("child", NTAny), Call("not", <<Rel1("child", NTName("a"))>>), Bin("=", SelfDot, Lit("1")),
